@@ -4,8 +4,10 @@
 (* (M: lock-step product explored by TLC) and by TraceSimModel (binding: TLC       *)
 (* re-executes recorded scenarios and compares with what the real simulators did). *)
 EXTENDS Integers, Sequences, FiniteSets, TLC
-CONSTANT InnerFix  \* FALSE = the code: inside a chunk only high/low are widened to the previous close, the open is kept;
-                   \* TRUE  = proposed repair: the inner minutes are jump-fixed like the normal simulator does
+CONSTANT InnerFix  \* FALSE = the code: only the first minute of a chunk is jump-fixed; for the others high/low are widened to
+                   \*         the previous close but the open is kept, and the candidates are sorted on the raw minutes;
+                   \* TRUE  = proposed repair (fixes/C12-fast-inner-minutes-jump-fix.diff): every minute of the chunk is
+                   \*         jump-fixed against the previous one before matching, as the normal simulator does
 
 Min2(a, b) == IF a < b THEN a ELSE b
 Max2(a, b) == IF a > b THEN a ELSE b
@@ -60,7 +62,9 @@ SortExec(orders, cds, j, acc) ==
 \* ---- one side (simulator) ----
 \* pos: -1/0/1, entry: fill price of the entry, cur: position.current_price, bal: realised PnL,
 \* ords: ACTIVE orders in submission order (final orders are garbage), ex: declared exits, log: fills since the last comparison
-NoEx == [sl |-> 0, tp |-> 0]
+\* declared exits: absolute prices (set in go_long/go_short) or, when rel, a distance d from the price the strategy sees in
+\* on_open_position (self.stop_loss = qty, self.price -/+ d)
+NoEx == [sl |-> 0, tp |-> 0, rel |-> FALSE, d |-> 0]
 Side0 == [pos |-> 0, entry |-> 0, cur |-> 0, bal |-> 0, ords |-> <<>>, nid |-> 1, ex |-> NoEx, log |-> <<>>, err |-> "none"]
 Ord(id_, side_, typ_, p_, role_) == [id |-> id_, side |-> side_, typ |-> typ_, p |-> p_, role |-> role_]
 ById(s, oid) == LET m == SelectSeq(s.ords, LAMBDA x : x.id = oid) IN m[1]
@@ -80,10 +84,12 @@ Exec(s, oid, minute, hc) ==
       lg   == Append(s.log, <<o.side, o.typ, o.p, minute>>)
   IN IF s.pos = 0
      THEN \* _on_open_position: stop-loss first, then take-profit
-          LET cs == IF q2 = 1 THEN "sell" ELSE "buy" IN
+          LET cs == IF q2 = 1 THEN "sell" ELSE "buy"
+              sl == IF s.ex.rel THEN hc - q2 * s.ex.d ELSE s.ex.sl
+              tp == IF s.ex.rel THEN hc + q2 * s.ex.d ELSE s.ex.tp IN
           [s EXCEPT !.pos = q2, !.entry = o.p, !.cur = hc, !.log = lg, !.nid = @ + 2,
-                    !.ords = rest \o << Ord(s.nid, cs, ExitType(q2, s.ex.sl, hc), s.ex.sl, "sl"),
-                                        Ord(s.nid + 1, cs, ExitType(q2, s.ex.tp, hc), s.ex.tp, "tp") >>]
+                    !.ords = rest \o << Ord(s.nid, cs, ExitType(q2, sl, hc), sl, "sl"),
+                                        Ord(s.nid + 1, cs, ExitType(q2, tp, hc), tp, "tp") >>]
      ELSE IF q2 = 0
      THEN \* _on_close_position -> _execute_cancel: everything resting is cancelled, trade closed
           [s EXCEPT !.pos = 0, !.entry = 0, !.cur = hc, !.log = lg, !.ords = <<>>, !.ex = NoEx,
@@ -110,7 +116,7 @@ MaxH(cs) == IF Len(cs) = 1 THEN cs[1].h ELSE Max2(cs[1].h, MaxH(Tail(cs)))
 MinL(cs) == IF Len(cs) = 1 THEN cs[1].l ELSE Min2(cs[1].l, MinL(Tail(cs)))
 Agg(cs)  == Cd(cs[1].o, cs[Len(cs)].c, MaxH(cs), MinL(cs))
 Ext(cs, k) == IF k = 1 THEN cs[1]
-              ELSE Cd(IF InnerFix THEN cs[k - 1].c ELSE cs[k].o, cs[k].c, Max2(cs[k].h, cs[k - 1].c), Min2(cs[k].l, cs[k - 1].c))
+              ELSE Cd(cs[k].o, cs[k].c, Max2(cs[k].h, cs[k - 1].c), Min2(cs[k].l, cs[k - 1].c))
 InnerGap(cs, k) == k > 1 /\ cs[k].o # cs[k - 1].c
 Ids(os) == [j \in 1..Len(os) |-> os[j].id]
 \* index of the first candidate that is still active and inside the (rest of the) minute; 0 if none
@@ -130,7 +136,7 @@ MinutesF(s, ids, cs, k, base, real) ==
   IF k > Len(cs) THEN s
   ELSE LET r == LoopF(s, ids, Ext(cs, k), base + k, real) IN MinutesF(r.s, r.ids, cs, k + 1, base, real)
 ChunkF(s, raw, pc, base) ==
-  LET cs   == [k \in 1..Len(raw) |-> IF k = 1 THEN FixJump(pc, raw[1]) ELSE raw[k]]
+  LET cs   == [k \in 1..Len(raw) |-> IF k = 1 THEN FixJump(pc, raw[1]) ELSE IF InnerFix THEN FixJump(raw[k - 1].c, raw[k]) ELSE raw[k]]
       real == Agg(cs)
       ex0  == SelectSeq(s.ords, LAMBDA x : Includes(real, x.p))
       ex   == IF Len(ex0) > 1 THEN SortExec(ex0, cs, 1, <<>>) ELSE ex0
@@ -142,7 +148,7 @@ RECURSIVE Flush(_, _)
 Flush(s, minute) ==        \* store.orders.execute_pending_market_orders()
   LET mk == SelectSeq(s.ords, LAMBDA x : x.typ = "MARKET") IN
   IF mk = <<>> \/ s.err # "none" THEN s ELSE Flush(Exec(s, mk[1].id, minute, s.cur), minute)
-NoEntry == [dir |-> 0, p |-> 0, sl |-> 0, tp |-> 0]
+NoEntry == [dir |-> 0, p |-> 0, sl |-> 0, tp |-> 0, rel |-> FALSE, d |-> 0]
 HasEntry(s) == s.pos = 0 /\ s.ords # <<>>
 Decide(s, row, minute) ==
   LET s1 == IF HasEntry(s) /\ row.cancel THEN [s EXCEPT !.ords = <<>>, !.ex = NoEx] ELSE s           \* should_cancel_entry
@@ -154,7 +160,7 @@ Decide(s, row, minute) ==
       e  == row.entry
       s4 == IF s3.pos = 0 /\ s3.ords = <<>> /\ e # NoEntry
             THEN [s3 EXCEPT !.ords = <<Ord(s3.nid, IF e.dir = 1 THEN "buy" ELSE "sell", EntryType(e.dir, e.p, s3.cur), e.p, "entry")>>,
-                            !.nid = @ + 1, !.ex = [sl |-> e.sl, tp |-> e.tp]]
+                            !.nid = @ + 1, !.ex = [sl |-> e.sl, tp |-> e.tp, rel |-> e.rel, d |-> e.d]]
             ELSE s3
   IN Flush(s4, minute)
 
